@@ -75,6 +75,23 @@ impl<S: Spec> AllocMachine<S> {
         AllocMachine { e, values, batches, routes, quiet_form, use_owned, r: Default::default(), pushed: vec![], done: false, max_prefix, tags: vec![] }
     }
 
+    /// (value id, repetitions): enough copies of the biggest value to put more than 1.5 MiB into the
+    /// largest storage (size thresholds of pre-sizing code)
+    fn bulk(&self) -> (usize, usize) {
+        let mut best = (0usize, 1usize);
+        for (i, v) in self.values.iter().enumerate() {
+            let mut m = S::M::default();
+            S::m_push(&mut m, v);
+            let mut l = Vec::new();
+            S::m_layout(&m, &mut l);
+            let per = l.iter().map(|s| s.used).max().unwrap_or(0);
+            if per > best.1 {
+                best = (i, per);
+            }
+        }
+        (best.0, ((3 << 19) / best.1 + 1).min(400_000))
+    }
+
     fn region_of(&self, ids: &[usize]) -> S::R {
         let mut r: S::R = Default::default();
         for i in ids {
@@ -108,9 +125,25 @@ impl<S: Spec> Machine for AllocMachine<S> {
                 v.push(1000 + r * nb + b);
             }
         }
+        if self.pushed.is_empty() && !self.e.zst && S::MODELLED {
+            // bulk batches: many copies of one value, more than 1 MiB in the largest storage
+            for r in 0..self.routes.len() as u32 {
+                v.push(900 + r);
+            }
+        }
         v
     }
     fn describe(&self, op: OpId) -> String {
+        if (900..1000).contains(&op) {
+            let (v, n) = self.bulk();
+            let route = match &self.routes[(op - 900) as usize] {
+                Route::ReserveItems(f) => self.e.reserve_forms[*f].name.to_string(),
+                Route::ReserveRegions => "reserve_regions([region holding the batch])".into(),
+                Route::MergeOne => "region := merge_regions([region holding the batch])".into(),
+                Route::MergeWithSelf => "region := merge_regions([self, region holding the batch])".into(),
+            };
+            return format!("{route}; then push exactly {n} copies of {}", S::show(&self.values[v]));
+        }
         if op < 1000 {
             return format!("push({})", S::show(&self.values[op as usize]));
         }
@@ -126,7 +159,7 @@ impl<S: Spec> Machine for AllocMachine<S> {
         format!("{route}; then push exactly [{}]", batch.join(", "))
     }
     fn step(&mut self, op: OpId) -> Step {
-        if op < 1000 {
+        if op < 900 {
             let v = self.values[op as usize].clone();
             let r = &mut self.r;
             match guard(|| S::canon_push(r, &v)) {
@@ -139,9 +172,15 @@ impl<S: Spec> Machine for AllocMachine<S> {
         }
         self.done = true;
         let nb = self.batches.len() as u32;
-        let (ri, bi) = ((op - 1000) / nb, (op - 1000) % nb);
+        let (ri, bi, ids) = if op < 1000 {
+            let (v, n) = self.bulk();
+            (op - 900, 0, vec![v; n])
+        } else {
+            let (ri, bi) = ((op - 1000) / nb, (op - 1000) % nb);
+            (ri, bi, self.batches[bi as usize].clone())
+        };
+        let _ = bi;
         let route = self.routes[ri as usize].clone();
-        let ids = self.batches[bi as usize].clone();
         let mut batch: Vec<S::V> = ids.iter().map(|i| self.values[*i].clone()).collect();
         if let Route::ReserveItems(f) = &route {
             // forms that can only announce some items (arrays of one length) announce exactly those
